@@ -98,6 +98,50 @@ fn show_inst(i: &Instance, full: bool) -> String {
     }
 }
 
+/// service keys known to the actor (from the hook dump)
+async fn service_keys(a: &Addr<NamingActor>) -> Vec<String> {
+    let d = a.send(rnacos::verif_hooks::VerifDumpNaming).await.unwrap_or_default();
+    let part = d.split(' ').find(|x| x.starts_with("services=")).unwrap_or("services=");
+    part["services=".len()..]
+        .split(',')
+        .filter(|x| !x.is_empty())
+        .map(|x| x.split(':').next().unwrap_or("").to_string())
+        .collect()
+}
+
+fn skey_of_dump(k: &str) -> ServiceKey {
+    let p: Vec<&str> = k.split('/').collect();
+    ServiceKey::new(p.first().unwrap_or(&""), p.get(1).unwrap_or(&""), p.get(2).unwrap_or(&""))
+}
+
+/// every instance of every service: `ns/group/svc@ip:port:h:p:cid`
+async fn all_instances(a: &Addr<NamingActor>) -> String {
+    let mut out = vec![];
+    for k in service_keys(a).await {
+        if let Ok(Ok(NamingResult::InstanceList(list))) = a.send(NamingCmd::QueryAllInstanceList(skey_of_dump(&k))).await {
+            for i in list {
+                out.push(format!(
+                    "{}@{}:{}:h{}:p{}:c{}",
+                    k,
+                    i.ip,
+                    i.port,
+                    i.healthy as u8,
+                    i.ephemeral as u8,
+                    if i.client_id.is_empty() { "-" } else { i.client_id.as_str() }
+                ));
+            }
+        }
+    }
+    out.sort();
+    if out.is_empty() { "-".to_string() } else { out.join(",") }
+}
+
+/// the hook dump (counters, reverse maps, index) together with what the public queries return
+async fn audit(a: &Addr<NamingActor>) -> String {
+    let d = a.send(rnacos::verif_hooks::VerifDumpNaming).await.unwrap_or_default();
+    format!("{} insts={}", d, all_instances(a).await)
+}
+
 pub fn run() {
     let setter = clock_setter();
     let sys = actix_rt::System::new();
@@ -139,14 +183,18 @@ pub fn run() {
                     Ok(Ok(_)) => "ok".to_string(),
                     _ => "err".to_string(),
                 },
-                Some("rmclient") => match a.send(NamingCmd::RemoveClient(Arc::new(ws[1].to_string()))).await {
-                    Ok(Ok(_)) => "ok".to_string(),
-                    _ => "err".to_string(),
-                },
-                Some("rmclientc") => match a.send(NamingCmd::RemoveClientFromCluster(Arc::new(ws[1].to_string()))).await {
-                    Ok(Ok(_)) => "ok".to_string(),
-                    _ => "err".to_string(),
-                },
+                Some("rmclient") | Some("rmclientc") => {
+                    let before = all_instances(&a).await;
+                    let cmd = if ws[0] == "rmclient" {
+                        NamingCmd::RemoveClient(Arc::new(ws[1].to_string()))
+                    } else {
+                        NamingCmd::RemoveClientFromCluster(Arc::new(ws[1].to_string()))
+                    };
+                    match a.send(cmd).await {
+                        Ok(Ok(_)) => format!("ok before={} after={}", before, all_instances(&a).await),
+                        _ => "err".to_string(),
+                    }
+                }
                 Some("timecheck") => match a.send(NamingCmd::PeekListenerTimeout).await {
                     Ok(Ok(_)) => "ok".to_string(),
                     _ => "err".to_string(),
@@ -181,7 +229,12 @@ pub fn run() {
                         Ok(Ok(NamingResult::InstanceList(list))) => {
                             let mut v: Vec<String> = list.iter().map(|i| show_inst(i, false)).collect();
                             v.sort();
-                            format!("insts {}", v.join(","))
+                            let mut raw: Vec<String> = match a.send(NamingCmd::QueryAllInstanceList(skey(kv(&ws, "svc")))).await {
+                                Ok(Ok(NamingResult::InstanceList(l))) => l.iter().map(|i| show_inst(i, false)).collect(),
+                                _ => vec![],
+                            };
+                            raw.sort();
+                            format!("insts {} all={}", if v.is_empty() { "-".to_string() } else { v.join(",") }, if raw.is_empty() { "-".to_string() } else { raw.join(",") })
                         }
                         _ => "err".to_string(),
                     }
@@ -190,7 +243,7 @@ pub fn run() {
                     Ok(Ok(NamingResult::InstanceList(list))) => {
                         let mut v: Vec<String> = list.iter().map(|i| show_inst(i, true)).collect();
                         v.sort();
-                        format!("insts {}", v.join(","))
+                        format!("insts {}", if v.is_empty() { "-".to_string() } else { v.join(",") })
                     }
                     _ => "err".to_string(),
                 },
@@ -216,6 +269,7 @@ pub fn run() {
                     }
                     _ => "err".to_string(),
                 },
+                Some("audit") => audit(&a).await,
                 Some("dump") => match a.send(rnacos::verif_hooks::VerifDumpNaming).await {
                     Ok(s) => s,
                     _ => "err".to_string(),
